@@ -43,3 +43,25 @@ Fixpoint live_run (ex : liveconn -> settings -> reqshape -> bool -> resp -> resp
   | (cur, q, ended, r) :: rest =>
       let '(r', lc') := ex lc cur q ended r in r' :: live_run ex lc' rest
   end.
+
+(* ---------- several clients (Client.Clone) ---------- *)
+
+(* Transport.Clone builds a NEW http2 transport (own connection pool) pointing at the clone's own
+   Options; http1 idle connections and the http3 round tripper are the clone's own as well.  A
+   population of clients is the list of their current settings; an exchange names its client. *)
+Definition client_exchange (st : stack) (cs : list settings) (k : nat) (q : reqshape) (ended : bool)
+  (r : resp) : option resp :=
+  match nth_error cs k with
+  | Some s => Some (respond st (cfg_under s q) (set_auto s) ended r)
+  | None => None
+  end.
+
+(* NOT the code: clones share client 0's HTTP/2 connection pool, an HTTP/2 exchange of any client
+   runs on a connection whose transport - and settings - are client 0's *)
+Definition client_exchange_shared_h2_pool (st : stack) (cs : list settings) (k : nat) (q : reqshape)
+  (ended : bool) (r : resp) : option resp :=
+  match nth_error cs k, nth_error cs 0 with
+  | Some s, Some s0 =>
+      Some (respond st (cfg_under s q) (match st with H2 => set_auto s0 | _ => set_auto s end) ended r)
+  | _, _ => None
+  end.
